@@ -83,6 +83,17 @@ Theorem C04_answered_is_delivered : forall c i,
 Proof. exact answered_is_delivered. Qed.
 Print Assumptions C04_answered_is_delivered.
 
+(* the same for a backend (one attempt) that answers at 80 % of the endpoint timeout - within every
+   deadline the pipeline derives for it, but after the 75 % at which a hanging sibling with
+   concurrent calls reports its own DeadlineExceeded: its data still reaches the client, provided
+   the context handed in does not end before 85 % of the timeout *)
+Theorem C04_mid_answer_is_delivered : forall c i,
+  multi c && c_seq c = false -> (i < nbackends c)%nat ->
+  nth i (c_backends c) [] = [Mid] -> parent_after c (reduced 85 100 (c_T c)) = true ->
+  In i (must_keys c).
+Proof. exact mid_answer_is_delivered. Qed.
+Print Assumptions C04_mid_answer_is_delivered.
+
 (* the observed deadline is compared with the model at the earliest and the latest possible
    moments of derivation: sound because the deadline is monotone in those moments *)
 Theorem C04_deadline_monotone : forall F c clk clk' i j,
@@ -196,3 +207,11 @@ Example C04_ex_model_obs :
        {| router_err_path := false; seq_first_err_path := false; conc_early_path := fun _ => false |}
        [0; 1; 2]%nat 860 10 860 [0%nat]) = true.
 Proof. vm_compute. reflexivity. Qed.
+
+(* a Mid backend next to a sibling whose concurrent stage (75 %) gives up first: still certain *)
+Example C04_ex_mid :
+  must_keys {| c_level := LProxy; c_seq := false; c_T := 1000; c_parent := None; c_http := false;
+               c_backends := [[Mid]; [Hang; Hang]] |} = [0%nat] /\
+  must_keys {| c_level := LMux; c_seq := false; c_T := 1000; c_parent := Some 500; c_http := false;
+               c_backends := [[Mid]; [Hang; Hang]] |} = [].
+Proof. vm_compute. auto. Qed.
